@@ -1,4 +1,304 @@
-import Verif.C06.Model
+/-
+C06 — property theorems: "MRS isomorphism is exact and renaming-invariant; bag comparison partitions".
+
+Only statements and their assembly from `Lemmas.lean` live here.
+
+What is proved for ALL inputs of the model
+  * soundness of the matcher ("a changed predicate, argument, constant, constraint or property is
+    never reported as isomorphic"): every complete mapping `_vf2` returns, and hence every `True` of
+    `is_isomorphic`, is a label- and edge-preserving bijection between the two encoding graphs
+    (`matcher_sound`, `vf2_sound`, `isIsomorphic_sound`);
+  * the search never gives up while a feasible extension exists (`completeness_partial`);
+  * bag comparison: the two counting identities for ANY comparison predicate, and "a bag compared with
+    a renamed, shuffled copy of itself is entirely shared" for any equivalence relation
+    (`compareBags_partition`, `compareBags_perfect`, `compareBags_renamed_copy`).
+What is NOT proved (decided by the direct oracle of harness/c06.py on the real code): completeness of
+the matcher (no false negatives, hence reflexivity, symmetry, invariance under renaming/reordering)
+and the reading of a graph isomorphism as an MRS isomorphism.
+-/
+import Verif.C06.Lemmas
+
 namespace Verif.C06
-theorem stub : (1 : Nat) = 1 := rfl
+open Verif.Sem
+
+/-! ## the specification: a structure-preserving bijection -/
+
+/-- `μ` (a list of pairs `(n, m)`) is a bijection from the nodes of `g1` onto the nodes of `g2` that
+preserves node labels (predicate, constant, properties) and edge labels (roles, scope membership,
+constraints) — in both directions, self loops included, absent edges mapped to absent edges.
+`g1`, `g2` are the graphs of `_make_mrs_isograph`, BEFORE inverse edges are added. -/
+structure IsIsoVia (μ : Mapping) (g1 g2 : IsoGraph) : Prop where
+  functional : (μ.map (·.1)).Nodup
+  injective : (μ.map (·.2)).Nodup
+  total : ∀ n, n ∈ dkeys g1 ↔ n ∈ μ.map (·.1)
+  onto : ∀ m, m ∈ dkeys g2 ↔ m ∈ μ.map (·.2)
+  nodeLabel : ∀ p ∈ μ, (edge g1 p.1 none).getD [] = (edge g2 p.2 none).getD []
+  edgeLabel : ∀ p ∈ μ, ∀ q ∈ μ, edge g1 p.1 (some q.1) = edge g2 p.2 (some q.2)
+
+/-! ## "… so a changed predicate, argument, constant, constraint or property is never reported as
+isomorphic" — soundness of the matcher -/
+
+/-- Every complete mapping found by the search that passes the final test `set(iso) == set(g1)` is a
+label- and edge-preserving bijection of the two graphs.  Hypotheses: both `_vf2_inv_map` calls
+succeeded; no edge label starts with `--` or contains ` --`
+(the marker `_vf2_inv_map` uses for inverse edges — without this two different pairs of opposite
+labels can be concatenated to the same string). -/
+theorem matcher_sound (g1 g2 a1 a2 : IsoGraph)
+    (h1 : invMap g1 = .ok a1) (h2 : invMap g2 = .ok a2)
+    (hl1 : cleanGraph g1 = true) (hl2 : cleanGraph g2 = true)
+    (μ : Mapping) (hs : search a1 a2 a2.length [] = some μ) (hacc : accept μ a1 = true) :
+    IsIsoVia μ g1 g2 := by
+  unfold invMap at h1 h2
+  by_cases hc1 : closed g1 = true
+  · by_cases hc2 : closed g2 = true
+    · simp only [hc1, hc2, if_true, Except.ok.injEq] at h1 h2
+      subst h1; subst h2
+      obtain ⟨hg, hlen⟩ := search_sound hc1 hc2 hl1 hl2 _ [] μ (good_nil g1 g2) hs
+      simp only [accept, Bool.and_eq_true, List.all_eq_true, List.contains_iff_mem] at hacc
+      rw [dkeys_invMapRaw] at hacc
+      refine ⟨hg.keysNodup, hg.valsNodup, ?_, ?_, hg.nodeLbl, hg.edges⟩
+      · intro n
+        constructor
+        · exact hacc.2 n
+        · intro hn
+          obtain ⟨p, hp, rfl⟩ := List.mem_map.1 hn
+          exact hacc.1 p hp
+      · intro m
+        constructor
+        · intro hm
+          refine nodup_covers (μ.map (·.2)) (dkeys g2) hg.valsNodup ?_ ?_ m hm
+          · intro a ha
+            obtain ⟨p, hp, rfl⟩ := List.mem_map.1 ha
+            exact hg.valsIn p hp
+          · simp only [List.length_nil, Nat.zero_add, length_invMapRaw] at hlen
+            simp [dkeys, hlen]
+        · intro hm
+          obtain ⟨p, hp, rfl⟩ := List.mem_map.1 hm
+          exact hg.valsIn p hp
+    · simp [hc2] at h2
+  · simp [hc1] at h1
+
+/-- The same for the function `_vf2` itself: whenever the mapping it returns is complete
+(`len(mapping) == len(g2)`) and covers `g1`, it is a structure-preserving bijection. -/
+theorem vf2_sound (g1 g2 a1 a2 : IsoGraph)
+    (h1 : invMap g1 = .ok a1) (h2 : invMap g2 = .ok a2)
+    (hl1 : cleanGraph g1 = true) (hl2 : cleanGraph g2 = true)
+    (hlen : (vf2 a1 a2).length = a2.length) (hacc : accept (vf2 a1 a2) a1 = true) :
+    IsIsoVia (vf2 a1 a2) g1 g2 := by
+  cases hs : search a1 a2 a2.length [] with
+  | some μ =>
+    have hv : vf2 a1 a2 = μ := by simp [vf2, hs]
+    rw [hv] at hacc ⊢
+    exact matcher_sound g1 g2 a1 a2 h1 h2 hl1 hl2 μ hs hacc
+  | none =>
+    -- the failed search returns the empty mapping; complete means `g2` is empty, but then the
+    -- search succeeds at once
+    exfalso
+    have hv : vf2 a1 a2 = [] := by simp [vf2, hs]
+    rw [hv] at hlen
+    have : a2.length = 0 := by simpa using hlen.symm
+    rw [this] at hs
+    simp [search] at hs
+
+/-- **Main clause.**  Whenever `is_isomorphic(m1, m2, properties)` answers `True`, the two encoding
+graphs exist and (their edge labels being clean) there is a bijection between their nodes —
+variables and predications — that preserves node labels (normalised predicate, constant,
+properties when requested) and every labelled edge (role-labelled arguments, scope membership,
+handle and individual constraints).  No hypothesis on the MRSs: the degenerate case of a failed
+search on an empty graph is excluded by the size pre-checks. -/
+theorem isIsomorphic_sound (properties : Bool) (m1 m2 : MRS)
+    (h : isIsomorphic properties m1 m2 = .ok true) :
+    ∃ g1 g2, mkIsoGraph properties m1 = .ok g1 ∧ mkIsoGraph properties m2 = .ok g2 ∧
+      (cleanGraph g1 = true → cleanGraph g2 = true → ∃ μ, IsIsoVia μ g1 g2) := by
+  unfold isIsomorphic at h
+  by_cases hsz : sizesDiffer m1 m2 = true
+  · simp [hsz] at h
+  · simp only [hsz, Bool.false_eq_true, if_false, bind, Except.bind] at h
+    cases hg1 : mkIsoGraph properties m1 with
+    | error e => simp [hg1] at h
+    | ok g1 =>
+      cases hg2 : mkIsoGraph properties m2 with
+      | error e => simp [hg1, hg2] at h
+      | ok g2 =>
+        cases ha1 : invMap g1 with
+        | error e => simp [hg1, hg2, ha1] at h
+        | ok a1 =>
+          cases ha2 : invMap g2 with
+          | error e => simp [hg1, hg2, ha1, ha2] at h
+          | ok a2 =>
+            simp only [hg1, hg2, ha1, ha2, Except.ok.injEq] at h
+            refine ⟨g1, g2, rfl, rfl, fun hl1 hl2 => ?_⟩
+            cases hs : search a1 a2 a2.length [] with
+            | some μ =>
+              have hv : vf2 a1 a2 = μ := by simp [vf2, hs]
+              rw [hv] at h
+              exact ⟨μ, matcher_sound g1 g2 a1 a2 ha1 ha2 hl1 hl2 μ hs h⟩
+            | none =>
+              exfalso
+              have hv : vf2 a1 a2 = [] := by simp [vf2, hs]
+              rw [hv] at h
+              -- `set({}) == set(g1)`: the first graph has no node …
+              have hk1 : dkeys a1 = [] := by
+                simp only [accept, List.all_nil, Bool.true_and, List.map_nil, List.contains_nil,
+                  List.all_eq_true] at h
+                cases hd : dkeys a1 with
+                | nil => rfl
+                | cons x xs =>
+                  have := h x (by rw [hd]; exact List.mem_cons_self)
+                  cases this
+              have ha1' : a1 = invMapRaw g1 := by
+                unfold invMap at ha1
+                by_cases hc : closed g1 = true
+                · simp only [hc, if_true, Except.ok.injEq] at ha1; exact ha1.symm
+                · simp [hc] at ha1
+              have ha2' : a2 = invMapRaw g2 := by
+                unfold invMap at ha2
+                by_cases hc : closed g2 = true
+                · simp only [hc, if_true, Except.ok.injEq] at ha2; exact ha2.symm
+                · simp [hc] at ha2
+              rw [ha1', dkeys_invMapRaw, mkIsoGraph_keys hg1] at hk1
+              obtain ⟨hv1, hi1⟩ := initGraph_eq_nil (dkeys_eq_nil hk1)
+              -- … so m1 has neither variables nor predications, and by the size pre-checks neither has m2
+              simp only [sizesDiffer, Bool.or_eq_true, bne_iff_ne, ne_eq, not_or, Decidable.not_not] at hsz
+              obtain ⟨⟨⟨hr, _⟩, _⟩, hvl⟩ := hsz
+              have hr1 : m1.rels.length = 0 := by rw [← ids_length, hi1]; rfl
+              have hi2 : m2.ids = [] := by
+                apply List.eq_nil_of_length_eq_zero
+                rw [ids_length, ← hr, hr1]
+              have hv2 : filledVars m2 = [] := by
+                apply List.eq_nil_of_length_eq_zero
+                rw [← hvl, hv1]; rfl
+              have hg2nil : g2 = [] := by
+                apply dkeys_eq_nil
+                rw [mkIsoGraph_keys hg2]
+                simp [initGraph, hi2, hv2, dkeys]
+              -- but then the search succeeds at once
+              rw [ha2', hg2nil] at hs
+              simp [invMapRaw, search] at hs
+
+/-! ## completeness (partial) -/
+
+-- FULL STATEMENT (not proved): IsIsoVia φ g1 g2 → invMap g1 = .ok a1 → invMap g2 = .ok a2 →
+--   ∃ μ, search a1 a2 a2.length [] = some μ ∧ accept μ a1 = true
+-- Missing: (a) under an isomorphism φ extending the current mapping, the pair (φ⁻¹(m), m) for the
+-- chosen m is among `candidates`; (b) each test of `feasible` is necessary under φ (equal degree
+-- is the laborious one).  The direct oracle (exhaustive bijection search on ≤ 7 predications)
+-- carries this clause.
+/-- The search is exhaustive: it never gives up while some candidate of the current state is feasible
+and leads on.  `Ext` is any property of partial mappings ("extends to the isomorphism φ") that
+always offers a feasible candidate preserving it. -/
+theorem completeness_partial (a1 a2 : IsoGraph) (Ext : Mapping → Prop)
+    (hstep : ∀ mp, Ext mp → mp.length < a2.length →
+      ∃ c ∈ candidates mp a1 a2, feasible mp a1 a2 c.1 c.2 = true ∧ Ext (c :: mp)) :
+    ∀ (k : Nat) (mp : Mapping), Ext mp → mp.length + k = a2.length →
+      ∃ μ, search a1 a2 k mp = some μ := by
+  intro k
+  induction k with
+  | zero => intro mp _ _; exact ⟨mp, rfl⟩
+  | succ k ih =>
+    intro mp he hl
+    obtain ⟨c, hc, hf, he'⟩ := hstep mp he (by omega)
+    obtain ⟨μ', hμ'⟩ := ih (c :: mp) he' (by simp only [List.length_cons]; omega)
+    simp only [search]
+    cases hfs : (candidates mp a1 a2).findSome?
+        (fun c => if feasible mp a1 a2 c.1 c.2 = true then search a1 a2 k (c :: mp) else none) with
+    | some μ => exact ⟨μ, rfl⟩
+    | none =>
+      exfalso
+      have := List.findSome?_eq_none_iff.1 hfs c hc
+      simp [hf, hμ'] at this
+
+/-! ## "Comparing two bags of MRSs returns counts with unique-test + shared = size of test and
+shared + unique-gold = size of gold" -/
+
+/-- for ANY comparison predicate `iso` (so in particular whatever `is_isomorphic` computes) -/
+theorem compareBags_partition {α : Type} (iso : α → α → Bool) (test gold : List α) :
+    (compareBags iso test gold).1 + (compareBags iso test gold).2.1 = test.length
+    ∧ (compareBags iso test gold).2.1 + (compareBags iso test gold).2.2 = gold.length := by
+  have := foldl_bagStep_counts iso test ([], [], gold)
+  simpa [compareBags, compareBagsLists] using this
+
+/-! ## "a bag compared with a renamed, shuffled copy of itself is entirely shared" -/
+
+/-- greedy first-match is a perfect matching when `iso` is an equivalence relation and every class
+has equally many members on both sides -/
+theorem compareBags_perfect {α : Type} (iso : α → α → Bool)
+    (refl : ∀ a, iso a a = true) (symm : ∀ a b, iso a b = true → iso b a = true)
+    (trans : ∀ a b c, iso a b = true → iso b c = true → iso a c = true)
+    (test gold : List α) (hcount : ∀ x, test.countP (iso x) = gold.countP (iso x)) :
+    compareBags iso test gold = (0, test.length, 0) := by
+  simp [compareBags, compareBagsLists, foldl_bagStep_perfect iso refl symm trans test [] [] gold hcount]
+
+/-- the clause as worded: `gold` is a shuffled (`Perm`) list of copies `f t` of the members of `test`,
+each copy isomorphic to its original (`f` = renaming variables, reordering predications).  That
+`is_isomorphic` is an equivalence relation under which a renamed copy is isomorphic is the
+(unproved, oracle-checked) completeness of the matcher. -/
+theorem compareBags_renamed_copy {α : Type} (iso : α → α → Bool)
+    (refl : ∀ a, iso a a = true) (symm : ∀ a b, iso a b = true → iso b a = true)
+    (trans : ∀ a b c, iso a b = true → iso b c = true → iso a c = true)
+    (test gold : List α) (f : α → α) (hcopy : ∀ t ∈ test, iso t (f t) = true)
+    (hshuffle : (test.map f).Perm gold) :
+    compareBags iso test gold = (0, test.length, 0) := by
+  apply compareBags_perfect iso refl symm trans
+  intro x
+  rw [← hshuffle.countP_eq]
+  clear hshuffle
+  induction test with
+  | nil => rfl
+  | cons t ts ih =>
+    have h := hcopy t List.mem_cons_self
+    have hx : iso x t = iso x (f t) := by
+      cases hxt : iso x t with
+      | true => exact (trans _ _ _ hxt h).symm
+      | false =>
+        cases hxc : iso x (f t) with
+        | false => rfl
+        | true =>
+          have := trans _ _ _ hxc (symm _ _ h)
+          rw [hxt] at this; cases this
+    have ih' := ih (fun t ht => hcopy t (List.mem_cons_of_mem _ ht))
+    simp only [List.map_cons, List.countP_cons, ih', hx]
+
+/-! ## non-vacuity and regression instances (tests, labelled as such) -/
+
+section Examples
+
+/-- `[p ARG0 e1 ARG1 x2] [q ARG0 x2 ARG1 e1]` (two predications taking each other's variable) -/
+def gMutual : IsoGraph :=
+  [("h1", [(some "e1", eqScope), (some "x2", eqScope)]),
+   ("e1", [(none, "_p_v_1".toList), (some "e1", "ARG0".toList), (some "x2", "ARG1".toList)]),
+   ("x2", [(none, "_q_n_1".toList), (some "x2", "ARG0".toList), (some "e1", "ARG1".toList)])]
+
+/-- the same without q's ARG1 (witness of the repaired finding F24) -/
+def gMutualDropped : IsoGraph :=
+  [("h1", [(some "e1", eqScope), (some "x2", eqScope)]),
+   ("e1", [(none, "_p_v_1".toList), (some "e1", "ARG0".toList), (some "x2", "ARG1".toList)]),
+   ("x2", [(none, "_q_n_1".toList), (some "x2", "ARG0".toList)])]
+
+/-- a renamed copy of `gMutual` -/
+def gMutualRenamed : IsoGraph :=
+  [("x7", [(none, "_q_n_1".toList), (some "x7", "ARG0".toList), (some "e9", "ARG1".toList)]),
+   ("h4", [(some "x7", eqScope), (some "e9", eqScope)]),
+   ("e9", [(none, "_p_v_1".toList), (some "e9", "ARG0".toList), (some "x7", "ARG1".toList)])]
+
+-- the hypotheses of `matcher_sound` are satisfiable and its conclusion is reached
+example : cleanGraph gMutual = true ∧ cleanGraph gMutualRenamed = true := by decide
+example : (invMap gMutual).toOption.isSome = true := by decide
+example : accept (vf2 (invMapRaw gMutual) (invMapRaw gMutualRenamed)) (invMapRaw gMutual) = true := by decide
+-- F24 regression: after the repair the two edges between e1 and x2 carry both labels and the
+-- structure with the dropped argument is rejected, in both argument orders
+example : vf2 (invMapRaw gMutual) (invMapRaw gMutualDropped) = [] := by decide
+example : vf2 (invMapRaw gMutualDropped) (invMapRaw gMutual) = [] := by decide
+example : edge (invMapRaw gMutual) "e1" (some "x2") = some "ARG1 --ARG1".toList := by decide
+-- F25 regression: self-loop labels are compared
+example : vf2 (invMapRaw [("x1", [(none, ['p']), (some "x1", "ARG0 ARG1".toList)])])
+              (invMapRaw [("x1", [(none, ['p']), (some "x1", "ARG0 ARG2".toList)])]) = [] := by decide
+-- why clean labels are assumed: a role literally named `--B` makes two different structures
+-- produce the same augmented label
+example : combine (some "+A --B".toList) none = combine (some "+A".toList) (some "B".toList) := by decide
+-- greedy bag comparison on numbers modulo 3
+example : compareBags (fun a b : Nat => a % 3 == b % 3) [1, 2, 4, 9] [7, 3, 5, 5] = (1, 3, 1) := by decide
+
+end Examples
+
 end Verif.C06
